@@ -315,7 +315,7 @@ Proof.
   rewrite Ea, Eb.
   destruct (cartesian_loop_spec andf Up Us GP GS bels Hokb Hpb aels Hoka) as (o & Eo & HO).
   rewrite Eo. cbn [bind]. destruct o as [v|].
-  - destruct HO as (K1 & K2 & K3).
+  - destruct HO as (K1 & K2 & K3 & _).
     destruct (canonicalize_spec v K1) as (z & Ez & Uz & Dz).
     + intros a. rewrite K2. apply Hpa.
     + congruence.
